@@ -583,6 +583,8 @@ fn cmd_print(args: &Args) {
         let keep = p.settings.clone();
         p.settings = gen::random_settings(&mut rng, p.is_symmetric());
         if run % 5 == 3 { if let (Some(a), Some(b)) = (p.settings.as_object_mut(), keep.as_object()) { for (k, v) in b { a.insert(k.clone(), v.clone()); } } }
+        // a finite time limit now and then (far above the duration of these solves): the banner prints the configured value
+        if rng.gen::<f64>() < 0.25 { if !p.settings.is_object() { p.settings = json!({}); } p.settings["time_limit"] = json!([2.5, 0.75, 59.999, 10.0, 3600.0][rng.gen_range(0..5)]); }
         // infinite bounds so that the presolve line is exercised
         if rng.gen::<f64>() < 0.3 {
             let mut off = 0;
@@ -603,6 +605,7 @@ fn cmd_print(args: &Args) {
 
 /// C04: time limit reached in the middle of a run (sleep injected at a chosen pass)
 fn cmd_timelimit(args: &Args) {
+    let wd = rec_more::Watchdog::start(format!("{}.hang.json", args.get("out", "trace.ndjson")), args.num("hang_secs", 120));
     let seed = args.num("seed", 1);
     let count = args.num("count", 30) as usize;
     let mut rng = StdRng::seed_from_u64(seed);
@@ -616,6 +619,7 @@ fn cmd_timelimit(args: &Args) {
         p.settings = json!({"time_limit": 0.05, "tol_feas": 1e-14, "tol_gap_abs": 1e-14, "tol_gap_rel": 1e-14});
         let script = vec![("sleep".to_string(), k, 120.0)];
         let opts = rec_ipm::RunOpts { script: script.clone(), ..Default::default() };
+        wd.tick(&json!({"run": run, "problem": p}));
         let out = rec_ipm::run_ipm(run, &p, &opts);
         cases.push(json!({"run": run, "problem": p, "script": script}));
         match (&out.result, &out.panic) {
@@ -638,6 +642,7 @@ fn cmd_timelimit(args: &Args) {
 /// combined solves, step length) on all problem families: the real control flow must stay inside IPM.tla's actions
 /// (strategy switches, rollback, NumericalError / InsufficientProgress exits) and end in a terminal status.
 fn cmd_faults(args: &Args) {
+    let wd = rec_more::Watchdog::start(format!("{}.hang.json", args.get("out", "trace.ndjson")), args.num("hang_secs", 120));
     let seed = args.num("seed", 1);
     let count = args.num("count", 300) as usize;
     let mut rng = StdRng::seed_from_u64(seed);
@@ -668,6 +673,7 @@ fn cmd_faults(args: &Args) {
             script.push((pt.to_string(), k, v));
         }
         let opts = rec_ipm::RunOpts { script: script.clone(), capture_print: many, ..Default::default() };
+        wd.tick(&json!({"run": run, "problem": p}));
         let out = rec_ipm::run_ipm(run, &p, &opts);
         cases.push(json!({"run": run, "problem": p, "script": script}));
         match (&out.result, &out.panic) {
@@ -689,6 +695,7 @@ fn cmd_faults(args: &Args) {
 /// C04: runs to the numerical limit - every tolerance zero, 500 iterations allowed - mostly on nonsymmetric cones,
 /// whose iterates then approach the cone boundary to rounding distance (guards and asserts in the barrier code).
 fn cmd_longrun(args: &Args) {
+    let wd = rec_more::Watchdog::start(format!("{}.hang.json", args.get("out", "trace.ndjson")), args.num("hang_secs", 120));
     let seed = args.num("seed", 1);
     let count = args.num("count", 80) as usize;
     let mut rng = StdRng::seed_from_u64(seed ^ 0x10c9);
@@ -716,6 +723,7 @@ fn cmd_longrun(args: &Args) {
         if rng.gen::<f64>() < 0.3 { s.insert("equilibrate_enable".into(), json!(false)); }
         p.settings = Value::Object(s);
         p.tag.push_str("+longrun");
+        wd.tick(&json!({"run": run, "problem": p}));
         let out = rec_ipm::run_ipm(run, &p, &rec_ipm::RunOpts::default());
         cases.push(json!({"run": run, "problem": p}));
         match (&out.result, &out.panic) {
